@@ -1,6 +1,6 @@
 /-
 Lemmas about the parsing side of the Range model: value bounds of `httpHeaderParseOffset`, what
-`HttpHdrRangeSpec::parseInit` can return (well-formed specs; the only fault is the overflow of `last_pos + 1`),
+`HttpHdrRangeSpec::parseInit` can return (well-formed specs; it never faults),
 and the item loop of `HttpHdrRange::parseInit` as a fold over the items `strListGetItem` yields.
 -/
 import SquidModel.Range.CanonLemmas
@@ -16,8 +16,8 @@ theorem clampLL_bounds (v : Int) : LLONG_MIN ≤ clampLL v ∧ clampLL v ≤ LLO
   · omega
   · split <;> omega
 
-theorem strtollDigits_bounds (neg : Bool) (u : Bytes) :
-    LLONG_MIN ≤ (strtollDigits neg u).value ∧ (strtollDigits neg u).value ≤ LLONG_MAX := by
+theorem strtollDigits_bounds (s : Bytes) (neg : Bool) (u : Bytes) :
+    LLONG_MIN ≤ (strtollDigits s neg u).value ∧ (strtollDigits s neg u).value ≤ LLONG_MAX := by
   have e1 := LLONG_MAX_eq; have e2 := LLONG_MIN_eq
   unfold strtollDigits
   split
@@ -27,9 +27,10 @@ theorem strtollDigits_bounds (neg : Bool) (u : Bytes) :
   · simp only; omega
 
 theorem strtoll_bounds (s : Bytes) : LLONG_MIN ≤ (strtoll s).value ∧ (strtoll s).value ≤ LLONG_MAX :=
-  strtollDigits_bounds _ _
+  strtollDigits_bounds _ _ _
 
-theorem parseOffset_bounds {s : Bytes} {v : Int} (h : parseOffset s = some v) : LLONG_MIN ≤ v ∧ v ≤ LLONG_MAX := by
+theorem parseOffset_bounds {s : Bytes} {v : Int} {c : Nat} (h : parseOffset s = some (v, c)) :
+    LLONG_MIN ≤ v ∧ v ≤ LLONG_MAX := by
   unfold parseOffset at h
   simp only at h
   split at h
@@ -38,80 +39,82 @@ theorem parseOffset_bounds {s : Bytes} {v : Int} (h : parseOffset s = some v) : 
     · cases h
     · split at h
       · cases h
-      · injection h with h; subst h; exact strtoll_bounds s
+      · injection h with h; injection h with h _; subst h; exact strtoll_bounds s
 
-/-! ### HttpHdrRangeSpec::parseInit -/
+/-! ### parseBytePos and HttpHdrRangeSpec::parseInit -/
 
-theorem parseLast_wf {off : Int} {p : Bytes} {s : Spec} (ho0 : 0 ≤ off) (h : parseLast off p = .ok s) : s.WF := by
-  have e1 := LLONG_MAX_eq; have e2 := LLONG_MIN_eq
-  unfold parseLast at h
+/-- a byte position that is accepted is a non-negative `int64_t` -/
+theorem parseBytePos_bounds {t : Bytes} {len : Nat} {v : Int} (h : parseBytePos t len = some v) : 0 ≤ v ∧ v ≤ LLONG_MAX := by
+  unfold parseBytePos at h
   split at h
   · cases h
-  · rename_i last hlast
-    have hlb := parseOffset_bounds hlast
-    split at h
+  · split at h
     · cases h
     · split at h
       · cases h
-      · rename_i hlo
-        split at h
+      · split at h
         · cases h
-        · rename_i e he
-          simp only [add64] at he
-          split at he
-          · rename_i hfit
-            injection he with he; subst he
-            have hfit' := (fits64_iff _).mp hfit
-            split at h
-            · cases h
-            · rename_i len hsz
+        · rename_i v' c hpo
+          split at h
+          · cases h
+          · split at h
+            · rename_i hk
               injection h with h; subst h
-              have hgt : last + 1 > off := by omega
-              simp only [HttpRange.size, hgt, if_true, sub64] at hsz
-              split at hsz
-              · injection hsz with hsz; subst hsz
-                exact Or.inr (Or.inr ⟨by simp only; omega, by simp only; omega, by simp only; omega⟩)
-              · cases hsz
-          · cases he
-
-theorem parseLast_fault {off : Int} {p : Bytes} {f : Fault} (ho0 : 0 ≤ off) (hob : off ≤ LLONG_MAX)
-    (h : parseLast off p = .fault f) : f = .ub ∧ parseOffset p = some LLONG_MAX := by
-  have e1 := LLONG_MAX_eq; have e2 := LLONG_MIN_eq
-  unfold parseLast at h
-  split at h
-  · cases h
-  · rename_i last hlast
-    have hlb := parseOffset_bounds hlast
-    split at h
-    · cases h
-    · split at h
-      · cases h
-      · rename_i hlo
-        split at h
-        · rename_i f' he
-          injection h with h; subst h
-          simp only [add64] at he
-          split at he
-          · cases he
-          · rename_i hnf
-            injection he with he; subst he
-            have : ¬ (LLONG_MIN ≤ last + 1 ∧ last + 1 ≤ LLONG_MAX) := fun hh => hnf ((fits64_iff _).mpr hh)
-            have hl : last = LLONG_MAX := by omega
-            exact ⟨rfl, by rw [hlast, hl]⟩
-        · rename_i e he
-          simp only [add64] at he
-          split at he
-          · rename_i hfit
-            injection he with he; subst he
-            have hfit' := (fits64_iff _).mp hfit
-            split at h
-            · rename_i f' hsz
-              have hgt : last + 1 > off := by omega
-              simp only [HttpRange.size, hgt, if_true] at hsz
-              rw [sub64_ok (by omega) (by omega)] at hsz
-              cases hsz
+              have := (known_iff _).mp hk
+              exact ⟨by omega, (parseOffset_bounds hpo).2⟩
             · cases h
-          · cases he
+
+/-- the last-byte-pos branch never overflows: INT64_MAX is lowered by one before `+ 1` -/
+theorem parseLast_cases (off : Int) (p : Bytes) (plen : Nat) (ho0 : 0 ≤ off) (hob : off ≤ LLONG_MAX) :
+    parseLast off p plen = .invalid ∨
+    ∃ last, parseBytePos p plen = some last ∧ off ≤ last ∧
+      parseLast off p plen = .ok ⟨off, (if last = LLONG_MAX then last - 1 else last) + 1 - off⟩ := by
+  have e1 := LLONG_MAX_eq; have e2 := LLONG_MIN_eq
+  unfold parseLast
+  cases hp : parseBytePos p plen with
+  | none => exact Or.inl rfl
+  | some last =>
+    have hb := parseBytePos_bounds hp
+    simp only
+    by_cases hlt : last < off
+    · simp [hlt]
+    · right
+      refine ⟨last, rfl, by omega, ?_⟩
+      simp only [hlt, if_false]
+      by_cases hmax : last = LLONG_MAX
+      · simp only [hmax, if_true]
+        rw [add64_ok (by omega) (by omega)]
+        simp only
+        rw [size_ok (by simp only; omega) (by simp only; omega)]
+        simp only
+        by_cases hgt : LLONG_MAX - 1 + 1 > off
+        · simp [hgt]
+        · have : off = LLONG_MAX := by omega
+          simp [hgt, this]
+      · simp only [hmax, if_false]
+        rw [add64_ok (by omega) (by omega)]
+        simp only
+        rw [size_ok (by simp only; omega) (by simp only; omega)]
+        have hgt : last + 1 > off := by omega
+        simp [hgt]
+
+theorem parseLast_wf {off : Int} {p : Bytes} {plen : Nat} {s : Spec} (ho0 : 0 ≤ off) (hob : off ≤ LLONG_MAX)
+    (h : parseLast off p plen = .ok s) : s.WF := by
+  have e1 := LLONG_MAX_eq
+  rcases parseLast_cases off p plen ho0 hob with hi | ⟨last, hp, hle, hok⟩
+  · rw [hi] at h; cases h
+  · rw [hok] at h; injection h with h; subst h
+    have hb := parseBytePos_bounds hp
+    refine Or.inr (Or.inr ⟨by simp only; omega, ?_, ?_⟩)
+    · simp only; split <;> omega
+    · simp only; split <;> omega
+
+theorem parseLast_no_fault {off : Int} {p : Bytes} {plen : Nat} (ho0 : 0 ≤ off) (hob : off ≤ LLONG_MAX) (f : Fault) :
+    parseLast off p plen ≠ .fault f := by
+  intro h
+  rcases parseLast_cases off p plen ho0 hob with hi | ⟨last, _, _, hok⟩
+  · rw [hi] at h; cases h
+  · rw [hok] at h; cases h
 
 theorem parseFirst_wf {field : Bytes} {flen k : Nat} {s : Spec} (h : parseFirst field flen k = .ok s) : s.WF := by
   have e3 := Unknown_eq
@@ -119,46 +122,32 @@ theorem parseFirst_wf {field : Bytes} {flen k : Nat} {s : Spec} (h : parseFirst 
   split at h
   · cases h
   · rename_i off hoff
-    have hob := parseOffset_bounds hoff
+    have hob := parseBytePos_bounds hoff
     split at h
-    · cases h
-    · rename_i hk
-      have hk' : known off = true := by simpa using hk
-      have hoff0 := (known_iff _).mp hk'
-      split at h
-      · exact parseLast_wf (by omega) h
-      · injection h with h; subst h
-        exact Or.inr (Or.inl ⟨by simp only; omega, hob.2, by simp only; omega⟩)
+    · exact parseLast_wf hob.1 hob.2 h
+    · injection h with h; subst h
+      exact Or.inr (Or.inl ⟨hob.1, hob.2, by simp only; omega⟩)
 
-theorem parseFirst_fault {field : Bytes} {flen k : Nat} {f : Fault} (h : parseFirst field flen k = .fault f) :
-    f = .ub ∧ parseOffset (field.drop (k + 1)) = some LLONG_MAX := by
+theorem parseFirst_no_fault {field : Bytes} {flen k : Nat} (f : Fault) : parseFirst field flen k ≠ .fault f := by
+  intro h
   unfold parseFirst at h
   split at h
   · cases h
   · rename_i off hoff
-    have hob := parseOffset_bounds hoff
+    have hob := parseBytePos_bounds hoff
     split at h
+    · exact parseLast_no_fault hob.1 hob.2 f h
     · cases h
-    · rename_i hk
-      have hk' : known off = true := by simpa using hk
-      have hoff0 := (known_iff _).mp hk'
-      split at h
-      · exact parseLast_fault (by omega) hob.2 h
-      · cases h
 
-theorem parseSuffix_wf {rest : Bytes} {s : Spec} (h : parseSuffix rest = .ok s) : s.WF := by
+theorem parseSuffix_wf {rest : Bytes} {flen : Nat} {s : Spec} (h : parseSuffix rest flen = .ok s) : s.WF := by
   have e3 := Unknown_eq
   unfold parseSuffix at h
   split at h
   · cases h
   · rename_i len hlen
-    split at h
-    · rename_i hk
-      injection h with h; subst h
-      have := (known_iff _).mp hk
-      have hb := parseOffset_bounds hlen
-      exact Or.inl ⟨by simp only; omega, by simp only; omega, hb.2⟩
-    · cases h
+    injection h with h; subst h
+    have hb := parseBytePos_bounds hlen
+    exact Or.inl ⟨by simp only; omega, hb.1, hb.2⟩
 
 /-- whatever `parseInit` accepts is a well-formed spec (suffix / trailer / range with `offset + length ≤ INT64_MAX`) -/
 theorem parseSpec_wf {field : Bytes} {flen : Nat} {s : Spec} (h : parseSpec field flen = .ok s) : s.WF := by
@@ -173,23 +162,19 @@ theorem parseSpec_wf {field : Bytes} {flen : Nat} {s : Spec} (h : parseSpec fiel
         · exact parseFirst_wf h
         · cases h
 
-/-- the only fault `parseInit` can raise is the signed overflow of `last_pos + 1`, and only for `last_pos = INT64_MAX` -/
-theorem parseSpec_fault {field : Bytes} {flen : Nat} {f : Fault} (h : parseSpec field flen = .fault f) :
-    f = .ub ∧ ∃ k, dashIndex field = some k ∧ parseOffset (field.drop (k + 1)) = some LLONG_MAX := by
+/-- `parseInit` performs no arithmetic that can overflow and has no assertion: it never faults -/
+theorem parseSpec_no_fault (field : Bytes) (flen : Nat) (f : Fault) : parseSpec field flen ≠ .fault f := by
+  intro h
   unfold parseSpec at h
   split at h
   · cases h
   · split at h
     · unfold parseSuffix at h
-      split at h
-      · cases h
-      · split at h <;> cases h
+      split at h <;> cases h
     · split at h
       · cases h
-      · rename_i k hk
-        split at h
-        · obtain ⟨h1, h2⟩ := parseFirst_fault h
-          exact ⟨h1, k, hk, h2⟩
+      · split at h
+        · exact parseFirst_no_fault f h
         · cases h
 
 /-! ### the item loop as a fold over the items -/
@@ -293,6 +278,12 @@ theorem collect_fault {items : List (Bytes × Nat)} {acc : List Spec} {e : Fault
       exact ⟨(f, n), List.mem_cons_self, he⟩
     · obtain ⟨p, hp, hpf⟩ := ih h
       exact ⟨p, List.mem_cons_of_mem _ hp, hpf⟩
+
+/-- the item loop never faults -/
+theorem collect_no_fault (items : List (Bytes × Nat)) (acc : List Spec) (e : Fault) : collect items acc ≠ .error e := by
+  intro h
+  obtain ⟨p, _, hpf⟩ := collect_fault h
+  exact parseSpec_no_fault _ _ _ hpf
 
 /-- everything an accepted header yields is well-formed -/
 theorem parseHeader_wf {v : Bytes} {specs : List Spec} (h : parseHeader v = .ok (some specs)) : ∀ s ∈ specs, s.WF := by
